@@ -240,7 +240,7 @@ def main(tier, seed):
                        '(an independent parser); whitespace-only text that the writer itself inserts between tags '
                        'is layout', 'element/attribute names are XML Names, text is XML 1.0 Char, comments contain '
                        'no "--" (hypotheses of the property)']
-    ck.prove([], models=['Model/C20.vo'])
+    ck.prove([], models=['Model/C20.vo', 'Model/C20D.vo'])
     sys.path.insert(0, REPO)
     rng = random.Random(seed)
     n = 500 if tier == 'quick' else 8000
@@ -308,33 +308,69 @@ def main(tier, seed):
             ck.failing_input('document read back differs from what was written (whitespace disabled)',
                              dict(program=prog, whitespace=False), detail=dict(xml=xmltext, got=got[:40], want=want[:40]))
 
-    # correspondence with the Coq model, byte for byte
+    # correspondence with the Coq model, byte for byte; and the whole-document reader of Model/C20D.v (the reader the
+    # document theorems are about) against expat on the bytes the real writer returned: same elements, attributes in
+    # order, text, comments
+    def coq_events(ev):
+        out = []
+        for e in ev:
+            if e[0] == 'start':
+                out.append('(0, %s, %s)' % (cstr(e[1]), clist(['(%s, %s)' % (cstr(k), cstr(v)) for k, v in e[2].items()])))
+            elif e[0] == 'end':
+                out.append('(1, %s, [])' % cstr(e[1]))
+            elif e[0] == 'text':
+                out.append('(2, %s, [])' % cstr(e[1]))
+            else:
+                out.append('(3, %s, [])' % cstr(e[1]))
+        return clist(out)
     if ck.models_ok:
-        per = 250
-        bad = []
+        per = 64
+        bad, bad_docs, ndocs = [], [], 0
+        shards = []
         for s in range(0, len(progs), per):
             items = []
             for i in range(s, min(s + per, len(progs))):
-                items.append('(%d, %s, %s, %s)' % (i, clist(['(%s)' % coq_stmt(x) for x in progs[i][1]]),
-                                                   cstr(results[i][0]), cbool(results[i][1])))
+                if progs[i][0] == 'malformed':
+                    rd = '(false, None)'
+                else:
+                    ndocs += 1
+                    try:
+                        rd = '(true, Some %s)' % coq_events(read_back(results[i][0]))
+                    except Exception:     # noqa  (reported above as not well-formed; the model's reader must refuse it too)
+                        rd = '(true, None)'
+                items.append('(%d, %s, %s, %s, %s)' % (i, clist(['(%s)' % coq_stmt(x) for x in progs[i][1]]),
+                                                       cstr(results[i][0]), cbool(results[i][1]), rd))
             text = '\n'.join([
                 'From Coq Require Import List NArith ZArith Bool.',
-                'From GIV.Lib Require Import Regex Str.', 'From GIV.Model Require Import C20.',
+                'From GIV.Lib Require Import Regex Str.', 'From GIV.Model Require Import C20 C20Spec C20D.',
                 'Import ListNotations.', 'Local Open Scope N_scope.',
-                'Definition cases : list (N * list stmt * str * bool) := [', ';\n'.join(items), '].',
-                "Definition bad := Eval vm_compute in map (fun c => fst (fst (fst c))) (filter (fun c => let '(_, p, o, r) := c in",
+                'Definition cases : list (N * list stmt * str * bool * (bool * option (list xev))) := [', ';\n'.join(items), '].',
+                "Definition bad := Eval vm_compute in map (fun c => fst (fst (fst (fst c)))) (filter (fun c => let '(_, p, o, r, _) := c in",
                 "  let '(o', r') := run_program p in negb (str_eqb o o' && Bool.eqb r r')) cases).",
-                'Print bad.'])
-            rc, out = coq_eval('C20_cases_%d' % (s // per), text)
+                "Definition bad_docs := Eval vm_compute in map (fun c => fst (fst (fst (fst c)))) (filter (fun c => let '(_, _, o, _, (chk, e)) := c in",
+                "  chk && negb match xml_parse o, e with Some d, Some ev => xevs_eqb (reported d) ev | None, None => true | _, _ => false end) cases).",
+                'Print bad.', 'Print bad_docs.'])
+            shards.append(('C20_cases_%d' % (s // per), text))
+        import concurrent.futures
+        with concurrent.futures.ThreadPoolExecutor(max_workers=8) as ex:
+            outs = list(ex.map(lambda nt: coq_eval(nt[0], nt[1]), shards))
+        for rc, out in outs:
             if rc != 0:
                 ck.tie_broken('correspondence', 'case file does not evaluate:\n' + out[-2000:])
                 break
-            bad += parse_nlist(parse_defs(out)['bad'])
+            defs = parse_defs(out)
+            bad += parse_nlist(defs['bad'])
+            bad_docs += parse_nlist(defs['bad_docs'])
         if bad:
             i = bad[0]
             ck.tie_broken('correspondence', 'XMLWriter output differs from Model.C20.run_program on %d programs'
                           % len(bad), dict(program=progs[i][1], xml=results[i][0], raised=results[i][1]))
+        if bad_docs:
+            i = bad_docs[0]
+            ck.tie_broken('correspondence', 'Model.C20D.xml_parse and expat read %d documents of the real writer differently'
+                          % len(bad_docs), dict(program=progs[i][1], xml=results[i][0]))
         ck.extra['traces_validated_against_impl'] = len(progs)
+        ck.extra['documents_read_by_both_readers'] = ndocs
     return ck.finish(rule='seeded generator of writer programs: nested tagcontext blocks (depth<=8), leaf tags with '
                           'and without text, comments, 0-12 attributes (12% valueless), strings over an alphabet with '
                           'quotes <>& newline tab CR non-ASCII and long values that force wrapping; an abort stream '
